@@ -100,7 +100,12 @@ class Run:
         if I.parse_errors:
             self.notes.append(f'{crate}: {sum(I.parse_errors.values())} unparsed MIR lines (not in executed functions unless Stuck)')
         self.interps[crate] = I
+        self._mir_paths = getattr(self, '_mir_paths', {}); self._mir_paths[crate] = path
         return I
+
+    def mir_path(self, crate):
+        self.interp(crate)
+        return self._mir_paths[crate]
 
     def note_function(self, f):
         if f.name not in self.functions:
